@@ -1244,7 +1244,9 @@ func typeToInt(token string) (uint16, bool) {
 
 // stringToTTL parses things like 2w, 2m, etc, and returns the time in seconds.
 func stringToTTL(token string) (uint32, bool) {
-	var s, i uint
+	// s and i stay below 2^32, so none of the sums and products below can
+	// wrap a uint64.
+	var s, i uint64
 	for _, c := range token {
 		switch c {
 		case 's', 'S':
@@ -1264,8 +1266,11 @@ func stringToTTL(token string) (uint32, bool) {
 			i = 0
 		case '0', '1', '2', '3', '4', '5', '6', '7', '8', '9':
 			i *= 10
-			i += uint(c) - '0'
+			i += uint64(c) - '0'
 		default:
+			return 0, false
+		}
+		if s > math.MaxUint32 || i > math.MaxUint32 {
 			return 0, false
 		}
 	}
